@@ -29,7 +29,13 @@ const testDomain = "example.org"
 
 // addrN: the n-th peer address, of the type a real transport reports. Addresses n and n+50 are the same host with another
 // source port (another process behind the same NAT or on the same machine).
+// addrTCP: the addresses of the case under way are those of the TCP carrier (dns+tcp endpoints hand *net.TCPAddr to the listener)
+var addrTCP bool
+
 func addrN(n int64) net.Addr {
+	if addrTCP {
+		return &net.TCPAddr{IP: net.IPv4(10, 0, 0, byte(1+n%50)), Port: 5300 + int(n/50)}
+	}
 	return &net.UDPAddr{IP: net.IPv4(10, 0, 0, byte(1+n%50)), Port: 5300 + int(n/50)}
 }
 
